@@ -28,7 +28,7 @@ def hdr_freq(h, nchans_total, L, g):
     obsfreq = float(h["OBSFREQ"]); obsbw = float(h["OBSBW"]); cbw = float(h["CHAN_BW"])
     c = g // L; m = g % L
     centre = obsfreq - obsbw / 2 + (c + 0.5) * cbw
-    return (centre + (m - L / 2) * cbw / L) * 1e6
+    return (centre + (m - L // 2) * cbw / L) * 1e6          # after fftshift the zero-offset bin sits at L//2, for even and odd L
 
 
 def tone_case(c):
@@ -69,6 +69,10 @@ def tone_case(c):
                 if lw.ndim == 2 and lw.shape[1] == c["nchans"] * L and lw.shape[0] >= 1:
                     lp = [int(np.argmax(lw[r])) for r in range(lw.shape[0])]
                     res["lib_peaks_hz"] = [hdr_freq(h, nct, L, g) for g in lp]
+                    res["lib_peak_idx"] = lp
+                    # the two reductions of the same bytes must agree column for column (up to the overall scale)
+                    a = lw / max(float(np.max(lw)), 1e-300); b = wf[:lw.shape[0]] / max(float(np.max(wf[:lw.shape[0]])), 1e-300)
+                    res["lib_vs_indep_maxdiff"] = float(np.max(np.abs(a - b))) if a.shape == b.shape else None
             except Exception as ex:
                 res["lib_error"] = repr(ex)
     return res
